@@ -418,6 +418,10 @@ class VProcess:
         if env is not None and "JADE_JOB_NAME" in env and not want_out:
             name = env["JADE_JOB_NAME"]
             vp.sync(Op("launch", name))
+            if name in w.scen.get("spawn_fail", ()):
+                # the command cannot be spawned (missing executable): what the real Popen raises
+                w.emit("spawn_failed", vp=vp, job=name)
+                raise FileNotFoundError(2, "No such file or directory", argv[0])
             job = FakeJob(w, vp, name, argv, dict(env))
             vp.jobs[name] = job
             sim.live_jobs[(vp.index, name)] = job
